@@ -308,6 +308,48 @@ def finish(ctx, prop):
     return 1 if vio_lines else 0
 
 
+def confirm_violations(ctx, prop):
+    """Every violation found on a generated case is executed again, alone, in a process of its own, and judged again; one
+    that does not reproduce (a timing bucket missed on a loaded machine, an interleaving that did not recur) is dropped from
+    the verdict and recorded in the notes. Race-detector and aliasing findings are schedule / order dependent by nature and
+    are kept as found (their replay file carries the report)."""
+    if not ctx.violations:
+        return
+    by_dom = {d.name: d for d in prop.domains}
+    kept, seen = [], {}
+    for v in ctx.violations:
+        key = v["key"]
+        d = by_dom.get(v.get("domain"))
+        if key in seen or d is None or d.race or ":aliased" in key or ":argument-overwritten" in key or len(seen) >= 6:
+            seen.setdefault(key, True)
+            if seen[key]:
+                kept.append(v)
+            continue
+        name = d.binary + ("-" + d.tags if d.tags else "") + ("-race" if d.race else "")
+        binp = os.path.join(core.BIN, name)
+        ok = True
+        try:
+            for attempt in range(2):   # two more executions: a violation that shows in neither was not the code's
+                rc, pairs, se = core.run_corr("run", 0, 0, ctx.tier, corr_bin=binp, stdin_ops=v["op"] + "\n", timeout=1200)
+                if not pairs:
+                    break
+                res = core.run_driver([pairs[0][0]])
+                impl2 = pairs[0][1]
+                verdict = prop.judge(pairs[0][0], impl2.split(" ALIASED:")[0].split(" ARGMUT:")[0], res[0][0], res[0][1])
+                ok = verdict is not None and verdict[0] == "viol"
+                if ok:
+                    break
+        except Exception as e:
+            ctx.notes.append("violation confirmation could not run (%s): kept" % e)
+        seen[key] = ok
+        if ok:
+            kept.append(v)
+        else:
+            ctx.notes.append("violation not reproduced in two further executions of the op alone (dropped): key=%s op=%s impl=%s"
+                             % (key, v["op"][:160], str(v.get("impl", ""))[:120]))
+    ctx.violations = kept
+
+
 def main_check(prop, tier, seed):
     # replay files of earlier runs of this property would be mistaken for findings of this one
     for f in glob.glob(os.path.join(core.VERIF, "replay", "%s-*.json" % prop.id)):
@@ -323,6 +365,7 @@ def main_check(prop, tier, seed):
     t1 = time.time()
     stage_corr(ctx, prop)
     t2 = time.time()
+    confirm_violations(ctx, prop)
     prop.extra(ctx)
     ctx.notes.append("stage wall: build+prove+audit %.1fs (includes waiting for the shared build lock), correspondence %.1fs, extra %.1fs"
                      % (t1 - t0, t2 - t1, time.time() - t2))
